@@ -15,6 +15,23 @@ def scenario(args):
     try:
         tps = int(round(1 / kw["interval"]))           # ticks per second
         order = kw.get("setters", ())                   # sequence of ("ka"|"mt"|"ct", value, "before"|"after")
+        if kw.get("reconnect"):
+            # connect (nobody answers), change settings while that attempt exists, let it fail, connect again: the new attempt uses what was set
+            cl = w.add_client(1, ("10.3.0.1", 4001), callback=kw.get("callback", False), conn_timeout=kw.get("cli_ct0"))
+            w.clients[1]["cut"] = True
+            for t in range(tps // 4):
+                w.tick()
+            for k, v in kw["sets"]:
+                w.set_client(1, k, v)
+            for t in range(int(max(kw.get("cli_ct0") or 2.0, dict(kw["sets"]).get("ct", 0)) * tps) + tps):
+                w.tick()
+            if kw.get("force"):
+                cl.forceDisconnect()
+            w.reconnect(1)
+            for t in range(int(3.5 * tps)):
+                w.tick()
+            w.shutdown()
+            return w.ev
         if kw.get("unanswered"):
             # nobody answers: the link is cut from the start
             cl = w.add_client(1, ("10.3.0.1", 4001), callback=kw.get("callback", False), conn_timeout=kw.get("cli_ct"))
@@ -82,6 +99,12 @@ def run(ctx):
         for cb in (False, True):
             jobs.append((ctx.seed, dict(interval=1 / 60, srv_ka=0.1, conn_timeout=5.0, unanswered=True, cli_ct=cli_ct, callback=cb)))
             names.append("unanswered connect ct=%s callback=%s" % (cli_ct, cb))
+    # settings changed while a (failing) connection attempt exists must govern the next connect() on the same client
+    for sets in ([("ct", 0.5)], [("ct", 3.0), ("ka", 0.3)], [("mt", 0.25), ("ct", 0.75)]):
+        for cb in (False, True):
+            for force in (False, True):
+                jobs.append((ctx.seed, dict(interval=1 / 60, srv_ka=0.1, conn_timeout=5.0, reconnect=True, sets=sets, callback=cb, force=force, cli_ct0=None if sets[0][1] != 3.0 else 1.0)))
+                names.append("reconnect after %s callback=%s force=%s" % (sets, cb, force))
     # every order of the three client setters relative to connect; values that differ from the defaults
     vals = dict(ka=0.3, mt=0.25, ct=1.0)
     whens = list(itertools.product(("before", "after"), repeat=3))
